@@ -17,7 +17,14 @@ def genFor (prop tier : String) (seed : Nat) : Except String (Array Case) :=
   match prop with
   | "C01" => pure (genC01Cases tier seed)
   | "C02" => pure (genC02Cases tier seed)
-  | "C03" => pure (genC03Cases tier seed)
+  | "C03" =>
+    let base := genC03Cases tier seed
+    -- every fifth statement is also exported as a table (model on the implementation's parse,
+    -- linkage/reference oracles, exported file = returned tables)
+    let extra := (base.toList.zipIdx.filter (fun p => p.2 % 5 = 0)).map fun (c, i) =>
+      ({ id := c.id ++ "-tab", op := "tab", args := c03TabArgs ((c.args.getObjValAs? String "text").toOption.getD "") i,
+         tag := "expanded-table", note := c.note } : Case)
+    pure (base ++ extra.toArray)
   | "C04" => pure (genTabFamily "c04" tier seed false)
   | "C05" => pure (genTabFamily "c05" tier seed false)
   | "C06" => pure (genTabFamily "c06" tier seed false)
@@ -41,7 +48,7 @@ def judgeFor (prop : String) : Except String (Case → ObsLine → Verdict) :=
   match prop with
   | "C01" => pure judgeParse
   | "C02" => pure judgeParse
-  | "C03" => pure judgeParse
+  | "C03" => pure (fun c o => if c.op = "tab" then judgeTabWith ["C05", "C06"] c o else judgeParse c o)
   | "C04" => pure (judgeTabWith ["C04"])
   | "C05" => pure (judgeTabWith ["C05"])
   | "C06" => pure (judgeTabWith ["C06"])
